@@ -131,7 +131,7 @@ Proof.
   - intros H. inversion H; subst. destruct t2, s2, p2, f2; reflexivity.
 Qed.
 
-Lemma all_cells_length : length all_cells = (7 * 2 * 2 * 15)%nat.
+Lemma all_cells_length : length all_cells = (7 * 2 * 2 * 17)%nat.
 Proof. vm_compute. reflexivity. Qed.
 
 Lemma all_cells_complete : forall c : cell, In c all_cells.
@@ -166,6 +166,10 @@ Qed.
 
 Lemma no_known_escapes : forall c, escaped c = false.
 Proof. intros c. reflexivity. Qed.
+
+(* every goroutine from which a user function is reachable is protected, modelled, or a client chain *)
+Lemma user_goroutines_accounted_ok : user_goroutines_accounted table = true.
+Proof. vm_compute. reflexivity. Qed.
 
 (* the six client loops now recover in the deferred function itself *)
 Lemma client_loop_defer_is_direct :
@@ -206,15 +210,15 @@ Qed.
 
 (* fault cells that surface on a goroutine with an unprotected entry are stopped further in *)
 Lemma covered_b :
-  forallb (fun c => implb (applicable c) (covered_by_inner_frame table c)) all_cells = true /\
-  existsb (fun c => applicable c && on_unprotected_goroutine c) all_cells = true.
+  forallb (fun c => implb (applicable c && negb (escaped c)) (covered_by_inner_frame table c)) all_cells = true /\
+  existsb (fun c => applicable c && negb (escaped c) && on_unprotected_goroutine c) all_cells = true.
 Proof. vm_compute. split; reflexivity. Qed.
 
-Lemma covered_all : forall c : cell, applicable c = true -> on_unprotected_goroutine c = true ->
+Lemma covered_all : forall c : cell, applicable c = true -> escaped c = false -> on_unprotected_goroutine c = true ->
   exists f, recovering_frame table c = Some f.
 Proof.
-  intros c Ha Hu. destruct covered_b as [H _]. rewrite forallb_forall in H.
-  specialize (H c (all_cells_complete c)). rewrite Ha in H. cbn [implb] in H.
+  intros c Ha He Hu. destruct covered_b as [H _]. rewrite forallb_forall in H.
+  specialize (H c (all_cells_complete c)). rewrite Ha, He in H. cbn [implb andb negb] in H.
   unfold covered_by_inner_frame in H. unfold on_unprotected_goroutine in Hu.
   destruct (behaviour_of c) as [g|v]; [|discriminate].
   destruct (g_root g) as [encl target| | | |]; try discriminate.
